@@ -192,7 +192,7 @@ def covered (P : Params) (un vn : Nat) : Bool :=
     else e.name = "mpn_mul_basecase" || modelled1 e
   | e :: _ :: _ =>
     if e.name = "mpn_mul_basecase" then decide (un > P.MUL_BASECASE_MAX_UN.toNat)
-    else e.name = "mpn_mul_n" && decide (un > vn) &&
+    else e.name = "mpn_mul_n" && decide (un > vn) && decide (P.MUL_KARATSUBA_THRESHOLD.toNat ≤ vn) &&
       (List.range (vn + 1)).all (fun n => decide (n < P.MUL_KARATSUBA_THRESHOLD.toNat) || coveredN P n)
 
 end Mpir.MulLoops
